@@ -63,16 +63,16 @@ Range(q) == {q[i] : i \in 1..Len(q)}
 InChain(s, a) == s \in Range(chain[a])
 IsPrefix(x, y) == Len(x) <= Len(y) /\ \A i \in 1..Len(x) : x[i] = y[i]
 
-\* I: initial editions, a function Anchor -> [key, st, chain] (st "empty" | "complete" | "appending")
+\* I: initial editions, a function Anchor -> [key, st, ch] (st "empty" | "complete" | "appending")
 PInitWith(I) ==
   /\ ed = [a \in Anchor |-> [key |-> I[a].key, st |-> I[a].st, w |-> NoProc]]
-  /\ chain = [a \in Anchor |-> I[a].chain]
+  /\ chain = [a \in Anchor |-> I[a].ch]
   /\ rd = [a \in Anchor |-> {}] /\ upd = [a \in Anchor |-> NoProc]
   /\ dead = [a \in Anchor |-> FALSE] /\ sup = [a \in Anchor |-> FALSE]
   /\ hold = [p \in Proc |-> IdleHold] /\ pend = [p \in Proc |-> NoPend]
   /\ done = [p \in Proc |-> FALSE] /\ res = [p \in Proc |-> NoRes]
   /\ cov = [p \in Proc |-> {}] /\ exc = [p \in Proc |-> {}] /\ ban = [p \in Proc |-> {}]
-PInit == PInitWith([a \in Anchor |-> [key |-> 0, st |-> "empty", chain |-> <<>>]])
+PInit == PInitWith([a \in Anchor |-> [key |-> 0, st |-> "empty", ch |-> <<>>]])
 
 \* ---------------------------------------------------------------------------------------------
 \* calls
@@ -126,7 +126,7 @@ SetHold(p, m, a, b, k) == hold' = [hold EXCEPT ![p] = [m |-> m, a |-> a, b |-> b
 LinOw(p, r) ==
   LET k == pend[p].k  a == r.a IN
   IF a = NoA THEN r.F = {} /\ UNCHANGED <<ed, rd, upd, chain, dead, sup, hold, cov, exc, ban>>
-  ELSE /\ a \in Anchor /\ Unheld(a, rd) /\ MayFree(r.F, p, rd) /\ Hit(r.F) \subseteq {a}        \* G3, G2
+  ELSE /\ a \in Anchor /\ Unheld(a, rd) /\ MayFree(r.F, p, rd)                                 \* G3, G2
        /\ ed' = [EdAfterFree(r.F) EXCEPT ![a] = [key |-> k, st |-> "writing", w |-> p]]
        /\ chain' = [ChainAfterFree(r.F) EXCEPT ![a] = <<>>]
        /\ dead' = [dead EXCEPT ![a] = FALSE] /\ sup' = [sup EXCEPT ![a] = FALSE]
@@ -186,7 +186,7 @@ LinOu(p, r) ==
   IF s = NoA THEN /\ FreeOnly(p, r.F, rd) /\ UNCHANGED <<rd, upd, dead, sup, hold, cov, exc, ban>>
   ELSE /\ s \in Anchor /\ f \in Anchor /\ s # f
        /\ Readable(s, k, p) /\ upd[s] = NoProc                                                  \* G1, G4, one updater
-       /\ Unheld(f, rd) /\ MayFree(r.F, p, rd) /\ Hit(r.F) \subseteq {f}                        \* G3, G2
+       /\ Unheld(f, rd) /\ MayFree(r.F, p, rd)                                                 \* G3, G2
        /\ rd' = [rd EXCEPT ![s] = @ \cup {p}] /\ upd' = [upd EXCEPT ![s] = p]
        /\ ed' = [EdAfterFree(r.F) EXCEPT ![f] = [key |-> k, st |-> "writing", w |-> p]]
        /\ chain' = [ChainAfterFree(r.F) EXCEPT ![f] = <<>>]
@@ -197,7 +197,7 @@ LinOu(p, r) ==
        /\ exc' = Forget(exc, f)
        /\ SetHold(p, "u", s, f, k)
 LinCu(p, r) == LET s == hold[p].a  f == hold[p].b IN
-  /\ ed[f].w = p /\ upd[s] = p /\ r.F = {}
+  /\ ed[f].w = p /\ upd[s] = p /\ r.F = {} /\ Len(chain[s]) >= 1
   /\ chain' = [chain EXCEPT ![f] = @ \o Tail(chain[s])]     \* the caller's splicing point is the first stale slice
   /\ ed' = [ed EXCEPT ![f].st = "complete", ![f].w = NoProc]
   /\ rd' = [rd EXCEPT ![s] = @ \ {p}] /\ upd' = [upd EXCEPT ![s] = NoProc]
@@ -228,6 +228,18 @@ Lin(p, r) ==
        [] pend[p].op = "ou" -> LinOu(p, r)
        [] pend[p].op = "cu" -> LinCu(p, r)
        [] pend[p].op = "au" -> LinAu(p, r)
+
+\* results a call may produce (for model checking, and for calls whose return was not recorded)
+With(a, b, s, L, F) == [a |-> a, b |-> b, s |-> s, L |-> L, F |-> F, any |-> FALSE]
+ResDom(p) ==
+  LET op == pend[p].op  AA == Anchor \cup {NoA} IN
+  CASE op = "ow" -> {With(a, NoA, NoS, <<>>, F) : a \in AA, F \in SUBSET Slice}
+    [] op = "or" -> {With(a, NoA, NoS, <<>>, {}) : a \in AA}
+    [] op \in {"ws", "us"} -> {With(NoA, NoA, s, <<>>, {}) : s \in Slice \cup {NoS}}
+    [] op = "rs" -> {[NoRes EXCEPT !.any = TRUE]} \cup {With(NoA, NoA, NoS, SubSeq(chain[hold[p].a], 1, n), {}) : n \in 0..Len(chain[hold[p].a])}
+    [] op \in {"aw", "cf", "fe", "fk", "p", "au"} -> {With(NoA, NoA, NoS, <<>>, F) : F \in SUBSET Slice}
+    [] op = "ou" -> {With(a, b, NoS, <<>>, F) : a \in AA, b \in AA, F \in SUBSET Slice}
+    [] OTHER -> {NoRes}
 
 Ret(p, op, r) ==
   /\ pend[p].op = op /\ done[p] /\ res[p] = r
